@@ -566,6 +566,19 @@ def stored_is_returned_rule(ctx, cls):
         ctx.require(same, "R2", f"{f.short}: the weights stored for reuse are the weights returned", f"`{norm_text(last)}` and `return {norm_text(rets[-1].value)}`",
                     f"`{norm_text(last)}` stores one value and `return {norm_text(rets[-1].value)}` hands back another: the calls that reuse the stored weights do not return what the recomputing call returned",
                     f.loc(last))
+        # ... on EVERY returning path: a return that hands back a local must come after a store of that local (an early `return alpha_t` out of the
+        # loop leaves the stored weights of the previous recomputation — or the initial ones — for the reusing calls)
+        g = cfg_of(f.node)
+        for r in rets:
+            v = through(r.value)
+            if norm_text(v) == "self.prvs_alpha" or not isinstance(v, ast.Name):
+                continue
+            rn = g.node_of(r)
+            doms = [g.node_of(s_) for s_ in stores_ if norm_text(through(s_.value)) == norm_text(v)]
+            ok_r = any(g.dominates(d_, rn) for d_ in doms)
+            ctx.require(ok_r, "R2", f"{f.short}: `{norm_text(r)}` comes after the weights were stored", "a store of the returned value precedes the return on every path",
+                        f"`{norm_text(r)}` can be reached without `self.prvs_alpha = {norm_text(v)}` having been executed: the recomputing call returns the new weights, the calls that reuse "
+                        "stored weights return the old ones", f.loc(r))
 
 
 class _ClsView:
